@@ -163,35 +163,109 @@ def compare(ctx, p, preds, h, res):
             break
     return best or []
 
-def run_replays(ctx, lz, c12drv, plans, label, want_traces, ev_budget):
+class Worker:
+    """A child process running harness/pydrv/c12drv.py under the sanitizer runtime (a crash of liblzma must not
+    take the check down: it is a finding)."""
+    def __init__(self, so):
+        e = build.asan_env()
+        e["C12_LIBLZMA"] = so
+        e["PYTHONPATH"] = HERE
+        e["ASAN_OPTIONS"] = "detect_leaks=0:abort_on_error=1:allocator_may_return_null=1"
+        self.env = e
+        self.p = None
+    def start(self):
+        self.errf = open(os.path.join(self.workdir, "worker.%d.err" % id(self)), "w+")
+        self.p = subprocess.Popen([os.sys.executable, "-m", "harness.pydrv.c12drv"], stdin=subprocess.PIPE,
+                                  stdout=subprocess.PIPE, stderr=self.errf, env=self.env, cwd=HERE, text=True)
+    def run(self, hist, seed):
+        if self.p is None or self.p.poll() is not None:
+            self.start()
+        try:
+            self.p.stdin.write(json.dumps(dict(hist=hist, seed=seed)) + "\n"); self.p.stdin.flush()
+            line = self.p.stdout.readline()
+        except BrokenPipeError:
+            line = ""
+        if not line:
+            rc = self.p.wait()
+            self.errf.seek(0)
+            err = self.errf.read()
+            self.p = None
+            return dict(crash=True, rc=rc, stderr=err[-3000:])
+        return json.loads(line)
+    def stop(self):
+        if self.p and self.p.poll() is None:
+            try:
+                self.p.stdin.close(); self.p.wait(timeout=10)
+            except Exception:
+                self.p.kill()
+
+def crash_key(h, err):
+    """Stable key for a crash: sanitizer / assertion headline."""
+    import re
+    m = re.search(r"Assertion `([^']*)' failed", err)
+    if m:
+        return "crash:assert:%s" % re.sub(r"[^A-Za-z0-9_>.=!<-]+", "_", m.group(1))[:60]
+    m = re.search(r"ERROR: AddressSanitizer: ([a-z-]+)", err)
+    if m:
+        return "crash:asan:%s:%s" % (m.group(1), h["enc"])
+    m = re.search(r"runtime error: ([a-z ]+)", err)
+    if m:
+        return "crash:ubsan:%s" % m.group(1).strip().replace(" ", "_")[:40]
+    return "crash:signal:%s" % h["enc"]
+
+def run_replays(ctx, so, plans, label, want_traces, ev_budget, nworkers=3):
     """plans: list of (plan, preds).  Returns list of (label, events) chosen for trace validation."""
     traces = []
     seen = set()
-    used = 0
+    used = [0]
     t0 = time.time()
+    jobs = []
     for n, (p, preds) in enumerate(plans):
-        h = make_history(p, ctx.rng)
-        rng = random.Random(ctx.rng.getrandbits(48))
+        jobs.append((n, p, preds, make_history(p, ctx.rng), ctx.rng.getrandbits(48)))
+    lock = threading.Lock()
+    def work(wi):
+        w = Worker(so); w.workdir = ctx.workdir
+        for n, p, preds, h, seed in jobs[wi::nworkers]:
+            res = w.run(h, seed)
+            with lock:
+                ctx.case(key=("replay", hist_key(p), h["grant"], h["unit"]))
+                if res.get("crash"):
+                    key = crash_key(h, res["stderr"])
+                    if key not in seen:
+                        seen.add(key)
+                        ctx.violation(key, "the encoder process died (status %s) while executing the history:\n%s"
+                                      % (res["rc"], res["stderr"][-1800:]), dict(kind="history", history=h, seed=seed))
+                    continue
+                if not res.get("ok"):
+                    raise MachineryError("driver: %s on %s" % (res.get("error"), json.dumps(h)[:600]))
+                h = res["hist"]
+                probs = [tuple(x) for x in res["problems"]] + compare(ctx, p, preds, h, res)
+                for key, detail in probs:
+                    if key in seen:
+                        continue
+                    seen.add(key)
+                    ctx.violation(key, detail, dict(kind="history", history=h, seed=seed, observed=res["ops"], toks=res["toks"]))
+                nev = len(res["events"])
+                if len(traces) < want_traces and used[0] + nev <= ev_budget and nev <= 6000:
+                    traces.append(("%s:%s:%s:%s:%d" % (h["enc"], h["chain"]["pre"], h["chain"]["lz"], h["grant"], n), res["events"]))
+                    used[0] += nev
+                if n == 3:
+                    ctx.sample(dict(kind="replayed_history", history=h, observed=res["ops"], tokens=res["toks"][:12]))
+        w.stop()
+    errs = []
+    def guarded(wi):
         try:
-            res = c12drv.run_history(h, rng)
-        except c12drv.DriverError as e:
-            raise MachineryError("driver: %s on %s" % (e, json.dumps(h)[:600]))
-        ctx.case(key=("replay", hist_key(p), h["grant"], h["unit"]))
-        probs = list(res["problems"]) + compare(ctx, p, preds, h, res)
-        for key, detail in probs:
-            key = "%s" % key
-            if key in seen:
-                continue
-            seen.add(key)
-            ctx.violation(key, detail, dict(kind="history", history=h, observed=res["ops"], toks=res["toks"]))
-        nev = len(res["events"])
-        if len(traces) < want_traces and used + nev <= ev_budget and nev <= 6000:
-            traces.append(("%s:%s:%s:%s:%d" % (h["enc"], h["chain"]["pre"], h["chain"]["lz"], h["grant"], n), res["events"]))
-            used += nev
-        if n == 3:
-            ctx.sample(dict(kind="replayed_history", history=h, observed=res["ops"], tokens=res["toks"][:12]))
+            work(wi)
+        except Exception as e:
+            errs.append(e)
+    ths = [threading.Thread(target=guarded, args=(i,)) for i in range(nworkers)]
+    for t in ths: t.start()
+    for t in ths: t.join()
+    if errs:
+        raise errs[0]
+    traces.sort(key=lambda t: int(t[0].rsplit(":", 1)[1]))
     ctx.log("replayed %d histories (%s) in %.1fs; %d kept for trace validation (%d events)"
-            % (len(plans), label, time.time() - t0, len(traces), used))
+            % (len(plans), label, time.time() - t0, len(traces), used[0]))
     return traces
 
 # ------------------------------------------------------------------------------------------------ CLI plans
@@ -395,7 +469,7 @@ def run(ctx):
     for k in sorted(bfs):
         p = bfs[k][0]
         groups[(p["enc"], p["chain"]["pre"], p["chain"]["lz"], p["bsize"])].append(k)
-    per = (40 if quick else 700)
+    per = (32 if quick else 700)
     chosen = []
     for gk in sorted(groups):
         ks = groups[gk]
@@ -405,8 +479,8 @@ def run(ctx):
     simk = sorted(sim)
     ctx.rng.shuffle(simk)
     chosen_sim = [sim[k] for k in simk[:(120 if quick else 1200)]]
-    traces = run_replays(ctx, lz, c12drv, chosen, "bfs histories <= 3 operations", 120 if quick else 900, 14000 if quick else 120000)
-    traces += run_replays(ctx, lz, c12drv, chosen_sim, "simulated histories <= 8 operations", 40 if quick else 300, 8000 if quick else 60000)
+    traces = run_replays(ctx, L["so"], chosen, "bfs histories <= 3 operations", 120 if quick else 900, 14000 if quick else 120000)
+    traces += run_replays(ctx, L["so"], chosen_sim, "simulated histories <= 8 operations", 40 if quick else 300, 8000 if quick else 60000)
     traces += cli_traces
     # (V)
     rej = tracev.validate(ctx, "TraceXzStreamEnc", traces, trace_key, maxl=True, timeout=600 if quick else 1500)
